@@ -436,6 +436,13 @@ def run(ctx) -> None:
             chk(ctx)
         except AnalysisError as exc:
             ctx.defer(str(exc))
+    # find_blocked_reactions hands FVA the list that is left after its pre-filter - possibly an empty one: an item list
+    # is defaulted only when it is None, or an empty request is answered for the whole model (shared with C05/C14)
+    from .common import check_none_defaults
+
+    ctx.rule("C19.nonedefault", "T5: reaction lists are defaulted only when None (an empty request is not 'all reactions')", floor=2)
+    p_ = ctx.prog
+    check_none_defaults(ctx, "C19.nonedefault", [p_.func("cobra.flux_analysis.variability", "flux_variability_analysis"), p_.func("cobra.flux_analysis.variability", "find_blocked_reactions")])
     # the pre-filter of find_blocked_reactions reads one solution through get_solution(model, reactions=reaction_list):
     # each flux has to stand under the identifier of its own reaction for any order of the request (shared with C04)
     from . import solform
